@@ -3,6 +3,7 @@
 package main
 
 import (
+	"context"
 	"fmt"
 	"math"
 	"os"
@@ -11,7 +12,10 @@ import (
 	"github.com/cube2222/octosql/aggregates"
 	"github.com/cube2222/octosql/execution"
 	"github.com/cube2222/octosql/execution/nodes"
+	"github.com/cube2222/octosql/functions"
+	"github.com/cube2222/octosql/logical"
 	"github.com/cube2222/octosql/octosql"
+	"github.com/cube2222/octosql/physical"
 
 	"verifharness/lib"
 )
@@ -58,6 +62,15 @@ func perturb(r *lib.Rng, v octosql.Value) octosql.Value {
 	elems := func(vs []octosql.Value) []octosql.Value {
 		out := append([]octosql.Value{}, vs...)
 		switch {
+		case r.Chance(1, 3): // the prefix family: a proper prefix / extension whose length differs by 1, 2, 3 or more
+			d := 1 + r.Intn(4)
+			if len(out) >= d && r.Bool() {
+				return out[:len(out)-d]
+			}
+			for i := 0; i < d; i++ {
+				out = append(out, lib.GenValue(r, lib.AllProfile, 0))
+			}
+			return out
 		case len(out) > 0 && r.Chance(1, 3):
 			return out[:len(out)-1]
 		case len(out) > 0 && r.Chance(1, 2):
@@ -101,6 +114,22 @@ func perturb(r *lib.Rng, v octosql.Value) octosql.Value {
 		return octosql.NewDuration(v.Duration + time.Duration(r.Intn(3)-1))
 	}
 	return lib.GenValueOfKind(r, lib.AllProfile, v.TypeID, 1)
+}
+
+// longPrefixPair draws a container and a Compare-equal proper prefix of it that is 2..4 elements shorter.
+func longPrefixPair(r *lib.Rng) (octosql.Value, octosql.Value) {
+	n := r.Intn(3)
+	d := 2 + r.Intn(3)
+	long := make([]octosql.Value, n+d)
+	for i := range long {
+		long[i] = lib.GenValue(r, lib.AllProfile, r.Intn(2))
+	}
+	mk := []func([]octosql.Value) octosql.Value{octosql.NewList, octosql.NewStruct, octosql.NewTuple}[r.Intn(3)]
+	a, b := mk(long), mk(variants(r, long[:n]))
+	if r.Chance(1, 3) { // nested one level down
+		a, b = octosql.NewList([]octosql.Value{a}), octosql.NewList([]octosql.Value{b})
+	}
+	return a, b
 }
 
 func genValue(r *lib.Rng) octosql.Value {
@@ -151,6 +180,59 @@ func universe() []octosql.Value {
 		tu(nil), tu(vs(i(1))), tu(vs(fb(nanPayloads[0]), i(1))), tu(vs(fb(nanPayloads[1]), i(1))), tu(vs(fb(nanPayloads[1]), i(2))),
 		tu(vs(octosql.NewTime(base.UTC()))), tu(vs(octosql.NewTime(base.In(locs[1])))),
 	}
+}
+
+// prefixFamily: containers that are proper prefixes of one another with length differences 1, 2 and 3, at the top
+// level and nested; part of the universe in both tiers.
+func prefixFamily() []octosql.Value {
+	i := octosql.NewInt
+	l, st, tu := octosql.NewList, octosql.NewStruct, octosql.NewTuple
+	vs := func(v ...octosql.Value) []octosql.Value { return v }
+	return []octosql.Value{
+		l(vs(i(1), i(2), i(3))), l(vs(i(1), i(2), i(3), i(4))), l(vs(i(1), i(3))),
+		st(vs(i(1), octosql.NewString("a"), i(3))), st(vs(i(1), octosql.NewString("a"), i(3), i(4))),
+		tu(vs(i(1), i(2), i(3))), tu(vs(i(1), i(2), i(3), i(4))),
+		l(vs(l(vs(i(1))))), l(vs(l(vs(i(1), i(2), i(3))))), l(vs(l(vs(i(1))), i(0))), tu(vs(l(nil), i(0))), tu(vs(l(vs(i(1), i(2))), i(0))),
+	}
+}
+
+// hasLongPrefixPair: two containers of one kind, one a Compare-equal proper prefix of the other, lengths differing by >= 2.
+func hasLongPrefixPair(vals []octosql.Value) bool {
+	parts := func(v octosql.Value) []octosql.Value {
+		switch v.TypeID {
+		case octosql.TypeIDList:
+			return v.List
+		case octosql.TypeIDStruct:
+			return v.Struct
+		}
+		return v.Tuple
+	}
+	var walk func(a, b octosql.Value) bool
+	walk = func(a, b octosql.Value) bool {
+		if a.TypeID != b.TypeID || a.TypeID < octosql.TypeIDList || a.TypeID > octosql.TypeIDTuple {
+			return false
+		}
+		pa, pb := parts(a), parts(b)
+		n := len(pa)
+		if len(pb) < n {
+			n = len(pb)
+		}
+		for k := 0; k < n; k++ {
+			if pa[k].Compare(pb[k]) != 0 {
+				return walk(pa[k], pb[k])
+			}
+		}
+		d := len(pa) - len(pb)
+		return d >= 2 || d <= -2
+	}
+	for x := range vals {
+		for y := range vals {
+			if x != y && walk(vals[x], vals[y]) {
+				return true
+			}
+		}
+	}
+	return false
 }
 
 // ---- observation -------------------------------------------------------------------------------
@@ -210,6 +292,9 @@ func addMatrix(cf *lib.CaseFile, vals []octosql.Value, kind string) {
 	if anyEq {
 		cf.Count(kind + "_with_equal_pair")
 	}
+	if panicked == nil && hasLongPrefixPair(vals) {
+		cf.Count(kind + "_with_prefix_pair_len_diff_ge2")
+	}
 	if panicked != nil {
 		cf.Violation(idx, fmt.Sprintf("Compare/Equal/Hash panicked: %v", panicked), "")
 	}
@@ -218,11 +303,22 @@ func addMatrix(cf *lib.CaseFile, vals []octosql.Value, kind string) {
 func addSlices(cf *lib.CaseFile, k1, k2 []octosql.Value) {
 	l12, l21 := execution.CompareValueSlices(k1, k2), execution.CompareValueSlices(k2, k1)
 	h1, h2 := octosql.HashManyValues(k1), octosql.HashManyValues(k2)
+	n := len(k1)
+	if len(k2) < n {
+		n = len(k2)
+	}
+	c12, c21 := make([]int, n), make([]int, n)
+	for i := 0; i < n; i++ {
+		c12[i], c21[i] = k1[i].Compare(k2[i]), k2[i].Compare(k1[i])
+	}
 	js := map[string]interface{}{"kind": "slices", "k1": lib.ValuesJSON(k1), "k2": lib.ValuesJSON(k2), "less12": l12, "less21": l21,
-		"hash1": fmt.Sprintf("0x%016x", h1), "hash2": fmt.Sprintf("0x%016x", h2)}
-	cf.Add(fmt.Sprintf("CSlices %s %s %s %s %s %s", lib.CoqValues(k1), lib.CoqValues(k2), lib.CoqBool(l12), lib.CoqBool(l21), lib.U(h1), lib.U(h2)),
+		"hash1": fmt.Sprintf("0x%016x", h1), "hash2": fmt.Sprintf("0x%016x", h2), "compare12": c12, "compare21": c21}
+	cf.Add(fmt.Sprintf("CSlices %s %s %s %s %s %s %s %s", lib.CoqValues(k1), lib.CoqValues(k2), lib.CoqBool(l12), lib.CoqBool(l21), lib.U(h1), lib.U(h2), coqZs(c12), coqZs(c21)),
 		js, len(k1) == len(k2) && len(k1) > 0 && !l12 && !l21)
 	cf.Count("slices")
+	if hasLongPrefixPair(append(append([]octosql.Value{}, k1...), k2...)) {
+		cf.Count("slices_with_prefix_pair_len_diff_ge2")
+	}
 	if len(k1) == len(k2) && !l12 && !l21 {
 		cf.Count("slices_equal_keys")
 	}
@@ -405,6 +501,48 @@ func addOps(cf *lib.CaseFile, rows [][]octosql.Value, desc bool) {
 		}
 	}
 
+	// self equi-join on every column (StreamJoin key trees), rows without a NULL key only:
+	// the pairs it produces are exactly the pairs of Compare-equal rows
+	joined := -1
+	if arity > 0 {
+		var nn [][]octosql.Value
+		for _, r := range rows {
+			ok := true
+			for _, v := range r {
+				if v.TypeID == octosql.TypeIDNull {
+					ok = false
+				}
+			}
+			if ok {
+				nn = append(nn, r)
+			}
+		}
+		oJoin := run("StreamJoin", nodes.NewStreamJoin(source(nn), source(nn), keyExprs(), keyExprs()))
+		joined = len(oJoin)
+		want := 0
+		for _, x := range nn {
+			for _, y := range nn {
+				if rowCmp(x, y) == 0 {
+					want++
+				}
+			}
+		}
+		if len(oJoin) != want {
+			problems = append(problems, fmt.Sprintf("self equi-join produced %d rows, but %d ordered pairs of input rows are Compare-equal", len(oJoin), want))
+		}
+		for _, o := range oJoin {
+			if len(o) != 2*arity {
+				problems = append(problems, fmt.Sprintf("self equi-join row %v does not have %d values", o, 2*arity))
+				break
+			}
+			if rowCmp(o[:arity], o[arity:]) != 0 {
+				problems = append(problems, fmt.Sprintf("self equi-join paired %v with %v, which are not Compare-equal", o[:arity], o[arity:]))
+				break
+			}
+		}
+		cf.Count("self_joins")
+	}
+
 	classes := map[int]int{}
 	for _, r := range rows {
 		classes[classOf(rows, r)]++
@@ -420,7 +558,7 @@ func addOps(cf *lib.CaseFile, rows [][]octosql.Value, desc bool) {
 		}
 	}
 	js := map[string]interface{}{"kind": "operators", "desc": desc, "rows": rowsJSON(rows), "distinct": rowsJSON(oDistinct), "group_by_hashmap": rowsJSON(oSGB),
-		"group_by_btree": rowsJSON(oCTGB), "count_distinct": cd, "order_by": rowsJSON(oOrder)}
+		"group_by_btree": rowsJSON(oCTGB), "count_distinct": cd, "order_by": rowsJSON(oOrder), "self_join_rows": joined}
 	idx := cf.Add(fmt.Sprintf("COps %s %s %s %s %s %s %s", lib.CoqBool(desc), coqRows(rows), coqRows(oDistinct), coqRows(oSGB), coqRows(oCTGB), lib.Z(cd), coqRows(oOrder)),
 		js, nontrivial)
 	cf.Count("operators")
@@ -430,6 +568,136 @@ func addOps(cf *lib.CaseFile, rows [][]octosql.Value, desc bool) {
 	for _, p := range problems {
 		cf.Violation(idx, p, "")
 	}
+}
+
+// ---- the comparison operators through the real typechecker -----------------------------------------
+
+var functionMap = functions.FunctionMap()
+
+// exprEnv: three columns of one static type; = != < <= > >= and IN typechecked (logical -> physical) and materialised
+// once, then evaluated on value triples.  Specialised descriptors, if the tree has any, are picked by the typechecker here.
+type exprEnv struct {
+	id    int
+	name  string
+	typ   octosql.Type
+	exprs []execution.Expression // nil entry: did not typecheck / materialise
+	why   []string
+	vals  []octosql.Value
+}
+
+var exprOps = []string{"=", "!=", "<", "<=", ">", ">="}
+
+func newExprEnv(id int, name string, typ octosql.Type, vals []octosql.Value) *exprEnv {
+	e := &exprEnv{id: id, name: name, typ: typ, vals: vals}
+	fields := make([]physical.SchemaField, 3)
+	mapping := map[string]string{}
+	for i := range fields {
+		fields[i] = physical.SchemaField{Name: fmt.Sprintf("t.c%d_0", i), Type: typ}
+		mapping[fmt.Sprintf("t.c%d", i)] = fields[i].Name
+	}
+	phys := physical.Environment{Functions: functionMap, VariableContext: &physical.VariableContext{Fields: fields}}
+	log := logical.Environment{UniqueVariableNames: &logical.VariableMapping{Mapping: mapping}, UniqueNameGenerator: map[string]int{}}
+	v := func(i int) logical.Expression { return logical.NewVariable(fmt.Sprintf("t.c%d", i)) }
+	var les []logical.Expression
+	for _, op := range exprOps {
+		les = append(les, logical.NewFunctionExpression(op, []logical.Expression{v(0), v(1)}))
+	}
+	les = append(les, logical.NewFunctionExpression("in", []logical.Expression{v(0), logical.NewTuple([]logical.Expression{v(1), v(2)})}))
+	for _, le := range les {
+		func() {
+			defer func() {
+				if p := recover(); p != nil {
+					e.exprs, e.why = append(e.exprs, nil), append(e.why, fmt.Sprint("typecheck: ", p))
+				}
+			}()
+			pe := le.Typecheck(context.Background(), phys, log)
+			ee, err := pe.Materialize(context.Background(), phys)
+			if err != nil {
+				e.exprs, e.why = append(e.exprs, nil), append(e.why, "materialize: "+err.Error())
+				return
+			}
+			e.exprs, e.why = append(e.exprs, ee), append(e.why, "")
+		}()
+	}
+	return e
+}
+
+func (e *exprEnv) eval(i int, a, b, b2 octosql.Value) (code int, note string) {
+	if e.exprs[i] == nil {
+		return 3, e.why[i]
+	}
+	defer func() {
+		if p := recover(); p != nil {
+			code, note = 3, fmt.Sprint("panic: ", p)
+		}
+	}()
+	ctx := execution.ExecutionContext{Context: context.Background(), VariableContext: &execution.VariableContext{Values: []octosql.Value{a, b, b2}}}
+	v, err := e.exprs[i].Evaluate(ctx)
+	switch {
+	case err != nil:
+		return 3, "error: " + err.Error()
+	case v.TypeID == octosql.TypeIDNull:
+		return 2, ""
+	case v.TypeID == octosql.TypeIDBoolean && v.Boolean:
+		return 1, ""
+	case v.TypeID == octosql.TypeIDBoolean:
+		return 0, ""
+	}
+	return 3, "value " + v.String()
+}
+
+func addExpr(cf *lib.CaseFile, e *exprEnv, a, b, b2 octosql.Value) {
+	outs := make([]int, len(e.exprs))
+	names := append(append([]string{}, exprOps...), "in")
+	js := map[string]interface{}{"kind": "operators_through_typechecker", "static_type": e.name, "a": lib.ValueJSON(a), "b": lib.ValueJSON(b), "b2": lib.ValueJSON(b2)}
+	res := map[string]interface{}{}
+	for i := range e.exprs {
+		var note string
+		outs[i], note = e.eval(i, a, b, b2)
+		res[names[i]] = []interface{}{outs[i], note}
+	}
+	cab, cab2 := a.Compare(b), a.Compare(b2)
+	js["results_0false_1true_2null_3other"], js["a_compare_b"], js["a_compare_b2"] = res, cab, cab2
+	cf.Add(fmt.Sprintf("CExpr %d %s %s %s %s %s %s", e.id, lib.CoqValue(a), lib.CoqValue(b), lib.CoqValue(b2), lib.Z(int64(cab)), lib.Z(int64(cab2)), coqZs(outs)),
+		js, cab == 0 && lib.CoqValue(a) != lib.CoqValue(b))
+	cf.Count("expr_" + e.name)
+}
+
+func exprEnvs() []*exprEnv {
+	nan := func(i int) octosql.Value { return octosql.NewFloat(math.Float64frombits(nanPayloads[i])) }
+	f, i, s := octosql.NewFloat, octosql.NewInt, octosql.NewString
+	base := time.Unix(1600000000, 0)
+	floats := []octosql.Value{f(0), f(math.Copysign(0, -1)), nan(0), nan(1), nan(2), f(1), f(-1), f(math.Inf(1)), f(math.Inf(-1)), f(math.SmallestNonzeroFloat64)}
+	ints := []octosql.Value{i(0), i(1), i(-1), i(math.MinInt64), i(math.MaxInt64)}
+	bools := []octosql.Value{octosql.NewBoolean(false), octosql.NewBoolean(true)}
+	strs := []octosql.Value{s(""), s("a"), s("A"), s("ab"), s("\xff"), s("é")}
+	times := []octosql.Value{octosql.NewTime(base.UTC()), octosql.NewTime(base.In(locs[1])), octosql.NewTime(base.In(locs[2])), octosql.NewTime(base.Add(1).UTC()), octosql.NewTime(time.Unix(0, 0).UTC())}
+	durs := []octosql.Value{octosql.NewDuration(0), octosql.NewDuration(1), octosql.NewDuration(-1), octosql.NewDuration(math.MaxInt64)}
+	fl := func(v ...octosql.Value) octosql.Value { return octosql.NewList(v) }
+	lists := []octosql.Value{fl(), fl(f(0)), fl(f(math.Copysign(0, -1))), fl(nan(0)), fl(nan(2)), fl(f(0), f(1), f(2)), fl(f(0), f(1))}
+	listOfFloat := octosql.Type{TypeID: octosql.TypeIDList, List: struct{ Element *octosql.Type }{Element: &octosql.Float}}
+	null := octosql.NewNull()
+	withNull := func(vs []octosql.Value) []octosql.Value { return append(append([]octosql.Value{}, vs...), null) }
+	var mixed []octosql.Value
+	for _, vs := range [][]octosql.Value{floats[:4], ints[:2], bools[:1], strs[:2], times[:2], durs[:1], lists[:3]} {
+		mixed = append(mixed, vs...)
+	}
+	var envs []*exprEnv
+	add := func(name string, t octosql.Type, vals []octosql.Value) {
+		envs = append(envs, newExprEnv(len(envs), name, t, vals))
+	}
+	add("Float", octosql.Float, floats)
+	add("Int", octosql.Int, ints)
+	add("Boolean", octosql.Boolean, bools)
+	add("String", octosql.String, strs)
+	add("Time", octosql.Time, times)
+	add("Duration", octosql.Duration, durs)
+	add("ListOfFloat", listOfFloat, lists)
+	add("NullableFloat", octosql.TypeSum(octosql.Float, octosql.Null), withNull(floats[:6]))
+	add("NullableInt", octosql.TypeSum(octosql.Int, octosql.Null), withNull(ints[:3]))
+	add("NullableString", octosql.TypeSum(octosql.String, octosql.Null), withNull(strs[:3]))
+	add("Any", octosql.Any, withNull(mixed))
+	return envs
 }
 
 func main() {
@@ -445,10 +713,12 @@ func main() {
 	cf.Checks = []lib.Check{{Name: "tie", Kind: "tie", Fn: "c09_tie"}, {Name: "spec", Kind: "spec", Fn: "c09_spec"}}
 	cf.Side.Rule = "triples of related values (nested to depth 3; NaN payloads, signed zeros, one instant in several locations, zero time): full 3x3 Compare/Equal matrix + Hash; " +
 		"key pairs through CompareValueSlices/HashManyValues; addition-only batches of 0..12 rows (arity 1..2) from a small pool through Distinct, SimpleGroupBy, CustomTriggerGroupBy, " +
-		"count_distinct and OrderSensitiveTransform; one fixed universe (all triples; larger in the thorough tier). " +
+		"count_distinct, OrderSensitiveTransform and a self equi-join (StreamJoin); one fixed universe incl. a family of proper prefixes with length differences 1..3 (all triples; larger in the thorough tier); " +
+		"= != < <= > >= IN typechecked by the real typechecker for two columns statically typed Float/Int/Boolean/String/Time/Duration/[Float]/nullable/Any, evaluated on pairs of edge values (all NaN payloads, both zeros). " +
 		"non-trivial = matrix with a Compare-equal pair of distinct positions / equal keys / a class holding two non-identical rows; distinct by full case text"
 
 	uni := universe()
+	fam := prefixFamily()
 	if f.Tier != "thorough" {
 		// quick: every third value of the universe plus the float block (still all triples of those)
 		var small []octosql.Value
@@ -459,7 +729,21 @@ func main() {
 		}
 		uni = small
 	}
-	addMatrix(cf, uni, "universe")
+	addMatrix(cf, append(uni, fam...), "universe")
+
+	// the comparison operators, typechecked for every static scalar type: all ordered pairs of the type's edge values
+	// (third operand = the next value), sampled down in the quick tier
+	for _, e := range exprEnvs() {
+		r := rng.Fork()
+		for x := range e.vals {
+			for y := range e.vals {
+				if f.Tier != "thorough" && len(e.vals) > 6 && x != y && e.vals[x].Compare(e.vals[y]) != 0 && !r.Chance(1, 3) {
+					continue
+				}
+				addExpr(cf, e, e.vals[x], e.vals[y], e.vals[(y+1+r.Intn(len(e.vals)-1))%len(e.vals)])
+			}
+		}
+	}
 
 	nTriples, nSlices, nOps := f.Cases(300, 3000), f.Cases(120, 1200), f.Cases(160, 1600)
 	for i := 0; i < nTriples; i++ {
@@ -469,6 +753,10 @@ func main() {
 			n = 4 + r.Intn(3)
 		}
 		var vals []octosql.Value
+		if r.Chance(1, 8) {
+			a, b := longPrefixPair(r)
+			vals = append(vals, a, b)
+		}
 		for len(vals) < n {
 			vals = append(vals, related(r, vals))
 		}
@@ -495,6 +783,15 @@ func main() {
 			if n > 0 {
 				k2 = variants(r, k1[:n-1]) // proper prefix
 			}
+		case 3: // one column holds a container and a much shorter prefix of it
+			a, b := longPrefixPair(r)
+			if r.Bool() {
+				a, b = b, a
+			}
+			j := r.Intn(n + 1)
+			k2 = variants(r, k1)
+			k1 = append(append(append([]octosql.Value{}, k1[:j]...), a), k1[j:]...)
+			k2 = append(append(append([]octosql.Value{}, k2[:j]...), b), k2[j:]...)
 		default:
 			k2 = variants(r, k1)
 		}
@@ -512,6 +809,14 @@ func main() {
 		}
 		if r.Chance(1, 2) {
 			pool = append(pool, octosql.NewNull())
+		}
+		if r.Chance(1, 3) {
+			a, b := longPrefixPair(r)
+			pool = append(pool, a, b)
+			if r.Bool() { // and one in between, so that a non-transitive comparator has something to break
+				pool = append(pool, perturb(r, b))
+			}
+			cf.Count("operators_with_prefix_pair_len_diff_ge2")
 		}
 		rows := make([][]octosql.Value, r.Intn(13))
 		for j := range rows {
